@@ -80,10 +80,12 @@ pub fn c03(tier: Tier) -> Vec<Case> {
         }
     }
     for body in [choice(vec![over("X"), over("Y")]), seq(vec![lit("k"), over("X")]), star(choice(vec![over("X"), seq(vec![lit("y"), over("Y")])]))] {
-        let mut l = vec![Rule::normal("K", vec![Directive::String], body)];
-        l.extend(leaves.iter().cloned());
-        let g = root_grammar(vec![Directive::Export], field("k", "K"), &l);
-        add(&mut b, "kinds/string-with-override", g);
+        for ds in [vec![Directive::String], vec![Directive::String, Directive::Position], vec![Directive::Position, Directive::Memoize, Directive::String]] {
+            let mut l = vec![Rule::normal("K", ds, body.clone())];
+            l.extend(leaves.iter().cloned());
+            let g = root_grammar(vec![Directive::Export], field("k", "K"), &l);
+            add(&mut b, "kinds/string-with-override", g);
+        }
     }
     // (2c) the guard for memoization: @memoize / @leftrec on every rule kind under derive sets WITHOUT Clone.
     // The compiler may reject these (documented for @memoize); whatever it accepts must compile.
